@@ -22,6 +22,7 @@ from mirsmt.interp import Inconclusive
 SCENS = [('a', None), ('b', None), ('c', 0), ('d', 1), ('e', 1)]
 
 
+@common.part
 def obligations(chk, prop):
     prog = chk.prog
     six = sched.SIdx(prog)
@@ -36,7 +37,12 @@ def obligations(chk, prop):
                            'resolver answering differently per (rule, scenario); both iteration orders of hash maps'))
     o.verdict = 'holds'
     K = {n: 3 + 7 * i for i, (n, _r) in enumerate(SCENS)}
-    for ntag in (0, 1):
+    SERIAL = ('b', 'd')         # what the (custom) classifier says: it may look at anything, e.g. the expanded name
+    o2 = chk.add(Obligation('%s.insert.every-scenario-filed-under-the-type-the-classifier-gives-for-it' % prop, o.bound if hasattr(o, 'bound') else 'same runs'))
+    o2.verdict = 'holds'
+    # rows expanded from one outline keep the outline's Examples: all scenarios share one non-empty `examples` value
+    shared_examples = Obj('vec', items=(Lazy('gherkin::Examples', 'the.outline.examples'),), ty='Vec<gherkin::Examples>')
+    for ntag, outline in ((0, False), (1, False), (0, True)):
         ex, M = chk.new_exec(loop_bound=16, max_paths=4000)
         M.opaque_bodies |= {'ScenarioId::new'}
         captured = {}
@@ -60,7 +66,9 @@ def obligations(chk, prop):
 
         def hook(ex_, f, args, dty, info, M=M):
             if len(args) == 3:
-                return Adt('runner::basic::ScenarioType', {}, six.Ty['Concurrent'])
+                sn3 = pointee_name(ex_, args[2])
+                M.log(ex_, 'classifier_called', scenario=sn3)
+                return Adt('runner::basic::ScenarioType', {}, six.Ty['Serial' if sn3 in SERIAL else 'Concurrent'])
             rn, sn = pointee_name(ex_, args[1]), pointee_name(ex_, args[2])
             want_rule = dict(SCENS).get(sn, 'unknown')
             M.log(ex_, 'resolver_called', rule=rn, scenario=sn)
@@ -77,10 +85,11 @@ def obligations(chk, prop):
             return Obj('future', what=('ready',), pending=0, value=UNIT, on_ready=None)
         M.body_hooks[ins_sc.name] = capture
 
-        def run(ex_, ntag=ntag, M=M, captured=captured):
+        def run(ex_, ntag=ntag, M=M, captured=captured, outline=outline):
             def scv(n):
                 return tagsets.gherkin_node(prog, 'gherkin::Scenario', n, ['%s.tag%d' % (n, i) for i in range(ntag)], {
-                    'steps': Obj('vec', items=(), ty='Vec<Step>')})
+                    'steps': Obj('vec', items=(), ty='Vec<Step>'),
+                    'examples': shared_examples if outline else Obj('vec', items=(), ty='Vec<gherkin::Examples>')})
             rules = [tagsets.gherkin_node(prog, 'gherkin::Rule', 'rule%d' % ri, [], {
                 'scenarios': Obj('vec', items=tuple(scv(n) for n, r in SCENS if r == ri), ty='Vec<Scenario>')}) for ri in (0, 1)]
             feat = tagsets.gherkin_node(prog, 'gherkin::Feature', 'feat', [], {
@@ -98,7 +107,7 @@ def obligations(chk, prop):
             poll_to_completion(ex_, M, co, 4)
             return {'arg': captured.get('arg'), 'calls': [(e['rule'], e['scenario']) for e in ex_.env.get('log', []) if e['kind'] == 'resolver_called']}
 
-        def on_end(ex_, rec, M=M, ntag=ntag):
+        def on_end(ex_, rec, M=M, ntag=ntag, outline=outline):
             kind, res, pc, dec = rec
             o.paths += 1
             if kind != 'ok':
@@ -111,6 +120,19 @@ def obligations(chk, prop):
                 return
             m = ex_.materialize(res['arg'])
             seen = {}
+            filed = {}
+            for _k, vec in m.entries:
+                kd = z3.simplify(M.discr(ex_, ex_.materialize(_k))).as_long()
+                for ent in M.seq_of(ex_, vec):
+                    filed[pointee_name(ex_, ex_.field_of(ex_.materialize(ent), None, 3, 'event::Source<gherkin::Scenario>'))] = kd
+            o2.paths += 1
+            wrong = ['%s (classifier: %s, filed as %s)' % (n, 'Serial' if n in SERIAL else 'Concurrent', 'Serial' if filed.get(n) == six.Ty['Serial'] else 'Concurrent' if n in filed else 'nothing')
+                     for n, _r in SCENS if filed.get(n) != six.Ty['Serial' if n in SERIAL else 'Concurrent']]
+            if wrong and o2.verdict != 'violated':
+                o2.verdict = 'violated'
+                o2.detail = 'scenarios filed under another type than the classifier gives for them: %s (%d tag(s) per scenario; %s)' % (
+                    ', '.join(wrong), ntag, 'all scenarios are rows of one outline (same non-empty Examples)' if outline else 'plain scenarios')
+                o2.model = {'wrong': wrong, 'outline': outline}
             for _k, vec in m.entries:
                 for ent in M.seq_of(ex_, vec):
                     ent = ex_.materialize(ent)
@@ -145,6 +167,8 @@ def obligations(chk, prop):
         ex.explore(run, on_end)
     if o.verdict == 'violated':
         confirm(chk, o, prop)
+    if o2.verdict == 'violated':
+        confirm_type(chk, o2, prop)
     w = chk.add(Obligation('%s.insert.witness' % prop, 'exploration'))
     w.kind = 'witness'
     w.verdict = 'witness-ok' if o.paths >= 2 else 'witness-missing'
@@ -175,3 +199,33 @@ def confirm(chk, o, prop):
         chk.replay_files.append(path)
         o.replay = path
         o.detail += ' | reproduced natively through the real runner: failing untagged scenarios a (top level), c (in a rule tagged @retry(2)), d (in the next, untagged rule) were attempted %s times, the tags say a=1, c=3, d=1' % starts
+
+
+def confirm_type(chk, o, prop):
+    """native, through the real runner with the custom classifier of the driver (`@exclusive` => Serial) - and, because a
+    classifier may look at more than tags, one that goes by the scenario NAME: rows of one outline, the second row serial"""
+    from checks import replay
+    d = os.path.join(common.EVID, 'replay')
+    os.makedirs(d, exist_ok=True)
+    lines = ['mode runner', 'hooks none', 'builder max_concurrent=3 which=name_serial', 'feature', '| Feature: f',
+             '|   Scenario Outline: row <n>', '|     Given st <n>', '|     Examples:', '|       | n |', '|       | one |', '|       | serial |', '|       | three |',
+             'step st_one yields=6', 'step st_serial yields=6', 'step st_three yields=6']
+    path = os.path.join(d, '%s-insert-classifier-per-scenario.script' % prop)
+    r, out = replay.run_script('\n'.join(lines) + '\n', path, timeout=60)
+    chk.replays += 1
+    from checks import execsim
+    tl = execsim.native_timeline(out)
+    bad = []
+    for e in tl:
+        if e[0] == 'start' and (('serial' in e[1] and e[3]) or any('serial' in x for x in e[3])):
+            bad.append('%s started while %s running' % (e[1], list(e[3])))
+    if r is None or not any(e[0] == 'start' for e in tl):
+        o.verdict = 'inconclusive'
+        o.detail += ' | native replay failed: %s' % out[-200:]
+    elif bad:
+        chk.replay_files.append(path)
+        o.replay = path
+        o.detail += ' | reproduced natively through the real runner (classifier: a scenario whose name contains `serial` is Serial; three rows of one outline): %s' % '; '.join(bad[:2])
+    else:
+        o.verdict = 'inconclusive'
+        o.detail += ' | not reproduced natively (the row the classifier calls serial ran alone)'
